@@ -336,7 +336,22 @@ def run(ctx):
         raise Infra('more (case, outcome) pairs than budgeted for the union bound')
 
 
+_run_core = run
+
+
+def run(ctx):
+    _run_core(ctx)
+    if ctx.n_new() == 0 and ctx.driver_ok:
+        from harness.common import run_demo
+        if ctx.n_new() == 0:
+            run_demo(ctx, 'demo_leaves.py', [20260929 + ctx.seed], 'c07-leaf-samplers-vs-model',
+                     'leaf samplers (inverse transform) and cdfs against the exact leaf theory (LeafQ)')
+
+
 def replay(rep):
+    if rep['replay'].get('kind') == 'demo':
+        from harness.common import replay_demo
+        return replay_demo(rep['replay'])
     r = rep['replay']
     n = r['n']
     if r['kind'] == 'c07-clt':
